@@ -878,6 +878,7 @@ func (c *VirtualTable) reopenAfterFailedCommit(ctx context.Context) error {
 	if !c.commitFailed || c.txStart != nil {
 		return nil
 	}
+	verifReopening(c)
 	tree, err := OpenKV(ctx, c.S3Options, "s3db-rows")
 	if err != nil {
 		return fmt.Errorf("reopen after failed commit: %w", err)
